@@ -1,6 +1,7 @@
 package minijson
 
 import (
+	"fmt"
 	"strconv"
 	"strings"
 )
@@ -78,6 +79,15 @@ func (s *JsonObjectBuilder) writeKey(key string) {
 }
 
 var escapeLookup = [93]string{'\b': "\\b", '\f': "\\f", '\n': "\\n", '\r': "\\r", '\t': "\\t", '"': `\"`, '\\': `\\`}
+
+func init() {
+	// the remaining control characters have no short form, and JSON does not allow them raw
+	for c := 0; c < 0x20; c++ {
+		if escapeLookup[c] == "" {
+			escapeLookup[c] = fmt.Sprintf(`\u%04x`, c)
+		}
+	}
+}
 
 func escape(s string) string {
 	var sb strings.Builder
